@@ -1,9 +1,10 @@
 (* C14 -- every Ping is answered by exactly one matching Pong, in order.  Statements only. *)
+From Coq.Strings Require Import Byte String.
 From Coq Require Import List NArith ZArith Bool.
-From Coq.Strings Require Import Byte.
-From Model Require Import Bytes Frame Parser FrameParser Conn.
+From Model Require Import Bytes Utf8 Frame Parser FrameParser Response Conn.
 From Proofs Require Import ApiFacts TraceFacts ConnFacts DeliveryFacts.
-Import ListNotations.
+From RecordUpdate Require Import RecordSet.
+Import ListNotations RecordSetNotations.
 Open Scope N_scope.
 
 (* what the session does around one Ping event yielded by WebSocket.feed (auto-pong, handing the event to ANY application
@@ -38,15 +39,69 @@ Proof. intros. apply Proofs.FrameFacts.build_roundtrip; auto. reflexivity. Qed.
 
 (* The whole stream.  For every conforming frame list (any fragmentation, Pings anywhere, also between the fragments of a
    data message and back to back in one read; any legal length encoding) cut into reads in any way, with automatic pongs
-   enabled, a working transport (socket open, no write fault, 4-byte masking keys), no Close sent by the client and an
-   application that sends nothing itself: the frames the library writes -- as the reference server of RFC 6455 section
+   enabled, a working transport (socket open, no write fault, 4-byte masking keys), no Close sent by the client and ANY
+   application that only sends (text, binary, ping, pong -- compressed or not -- from any handler, in reaction to anything):
+   the frames the LIBRARY writes (Proofs.DeliveryFacts.writes: every write in the trace except those made by the
+   application's own send_* calls, which the trace marks with TCall) -- as the reference server of RFC 6455 section
    5.2 decodes them -- are exactly one Pong per Ping of the reference reading, carrying the Ping's payload, in the order
    in which the Pings arrived, and nothing else (no automatic Ping is due: ping_rate = 0); the transport still works. *)
-Theorem C14_one_pong_per_ping_in_order : forall cf app, passive app -> zpos (c_ping_timeout cf) = None ->
+Theorem C14_one_pong_per_ping_in_order : forall cf app, benign app -> zpos (c_ping_timeout cf) = None ->
   forall fs lfs ds c open ms open',
   c_auto_pong cf = true -> c_ping_rate cf = 0%Z ->
   idle c open -> data_head open -> Forall plain fs -> forms_ok fs lfs ->
   ref_messages open fs = Some (ms, open') -> concat ds = encode_all fs lfs -> wok c ->
   exists c', feed_chunks cf app c ds = (c', SOk) /\ wok c' /\ writes (k_tr c') = rev (pong_replies ms) ++ writes (k_tr c).
-Proof. exact pongs_in_order_passive. Qed.
+Proof. exact pongs_in_order. Qed.
 Print Assumptions C14_one_pong_per_ping_in_order.
+
+(* ... and in everything the client put on the wire, the application's own frames included, the Pongs are there in the order
+   of the Pings (the library's writes are a subsequence of all writes) *)
+Theorem C14_pongs_in_order_among_all_writes : forall cf app, benign app -> zpos (c_ping_timeout cf) = None ->
+  forall fs lfs ds c open ms open',
+  c_auto_pong cf = true -> c_ping_rate cf = 0%Z ->
+  idle c open -> data_head open -> Forall plain fs -> forms_ok fs lfs ->
+  ref_messages open fs = Some (ms, open') -> concat ds = encode_all fs lfs -> wok c ->
+  exists c', feed_chunks cf app c ds = (c', SOk) /\ subseq (rev (pong_replies ms) ++ writes (k_tr c)) (all_writes (k_tr c')).
+Proof. exact pongs_among_all_writes. Qed.
+Print Assumptions C14_pongs_in_order_among_all_writes.
+
+(* for an application that calls nothing, "the library's writes" are all the writes *)
+Theorem C14_library_writes_are_all_writes_without_calls : forall tr,
+  Forall (fun i => match i with TCall _ => False | _ => True end) tr -> writes tr = all_writes tr.
+Proof. exact writes_all_without_calls. Qed.
+
+(* ---------- the hypotheses are met by an application that does send: it answers each text message with a text and a
+   (requested-compressed) binary frame and each Ping with a Ping of its own; two Pings arrive back to back in one read,
+   one of them between the fragments of a text message ---------- *)
+Definition cf14 : cfg :=
+  {| c_poll := 5%Z; c_ping_rate := 0%Z; c_ping_timeout := None; c_auto_pong := true; c_close_timeout := Some 30%Z;
+     c_accept := str "s3pPLMBiTxaQ9kYGzzhZRbK+xOo="%string |}.
+Definition reply14 : bytes :=
+  str "HTTP/1.1 101 Switching Protocols"%string ++ CRLF ++ str "Upgrade: websocket"%string ++ CRLF ++
+  str "Connection: Upgrade"%string ++ CRLF ++ str "Sec-WebSocket-Accept: s3pPLMBiTxaQ9kYGzzhZRbK+xOo="%string ++ CRLFCRLF.
+(* the connection right after the accepted handshake, the socket connected *)
+Definition c14 : conn := (fst (feedf cf14 chatty (init [] [] [] []) reply14)) <| k_sock := true |>.
+Definition fr14 (fin : bool) (op : N) (p : bytes) : frame :=
+  {| f_fin := fin; f_rsv1 := false; f_rsv2 := false; f_rsv3 := false; f_op := op; f_key := None; f_payload := p |}.
+Definition fs14 : list frame :=
+  [ fr14 false OP_TEXT (str "He"%string); fr14 true OP_PING (str "a"%string); fr14 true OP_PING (str "b"%string);
+    fr14 true OP_CONT (str "llo"%string); fr14 true OP_PING [] ].
+Definition lfs14 : list lenform := [L7; L16; L7; L64; L7].
+
+Example C14_nonvacuous_sending_application :
+  benign chatty /\ ~ passive chatty /\ zpos (c_ping_timeout cf14) = None /\ idle c14 [] /\ wok c14 /\
+  Forall plain fs14 /\ forms_ok fs14 lfs14 /\
+  ref_messages [] fs14 = Some ([SPing (str "a"%string); SPing (str "b"%string); SText (str "Hello"%string); SPing []], []) /\
+  writes (k_tr (fst (feedf cf14 chatty c14 (encode_all fs14 lfs14)))) =
+    [(OP_PONG, []); (OP_PONG, str "b"%string); (OP_PONG, str "a"%string)] /\
+  all_writes (k_tr (fst (feedf cf14 chatty c14 (encode_all fs14 lfs14)))) =
+    [(OP_PING, []); (OP_PONG, []); (OP_BINARY, str "Hello"%string); (OP_TEXT, str "Hello"%string);
+     (OP_PING, str "b"%string); (OP_PONG, str "b"%string); (OP_PING, str "a"%string); (OP_PONG, str "a"%string)].
+Proof.
+  split; [exact chatty_benign|]. split; [exact chatty_not_passive|]. split; [reflexivity|].
+  split. { unfold idle. vm_compute. do 5 (split; [reflexivity|]). split; [constructor|]. exists UAcc. split; reflexivity. }
+  split. { vm_compute. repeat split; constructor. }
+  split. { repeat constructor; vm_compute; reflexivity. }
+  split. { vm_compute. tauto. }
+  split; [vm_compute; reflexivity|]. split; vm_compute; reflexivity.
+Qed.
